@@ -30,8 +30,50 @@ def main():
         rep.crash = f"{type(e).__name__}: {e}"
         kwargs = {}
     kwargs.setdefault("checker_cmd", f"./check {a.prop} --tier {a.tier}")
+    if a.tier == "thorough" and not rep.crash and os.environ.get("PYVC_REPO", "/repo") == "/repo" \
+            and not os.environ.get("PYVC_NO_SELFTEST"):
+        try:
+            rep.extra["mutation_selftest"] = mutation_selftest(a.prop)
+        except BaseException as e:  # noqa
+            rep.extra["mutation_selftest"] = {"error": f"{type(e).__name__}: {e}"}
     rc = rep.finish(**kwargs)
     sys.exit(rc)
+
+
+def mutation_selftest(prop, limit=6):
+    """Thorough tier only: vacuity guard on the contracts.  Hand-written property-breaking mutants of /repo (catalogue in
+    tools/selftest.py, textual replacements) that name this property are applied one by one to a scratch git worktree of /repo
+    (outside /repo and /verif, removed afterwards) and this property's QUICK check is run against the mutant (PYVC_REPO): it
+    must exit 1.  The result is evidence only (a surviving mutant is a weakness of the contracts, not a violation of the
+    property on the unchanged tree) and never changes the exit code."""
+    import subprocess
+    import tempfile
+    sys.path.insert(0, os.path.join(VERIF, "tools"))
+    import selftest
+    todo = [m for m in selftest.MUTANTS if prop in m[4]][:limit]
+    out = {"mutants": len(todo), "killed": [], "survived": [], "skipped": []}
+    for mid, path, old, new, props in todo:
+        wt = tempfile.mkdtemp(prefix="pyvc-self-")
+        repo = os.path.join(wt, "repo")
+        try:
+            r = subprocess.run(["git", "-C", "/repo", "worktree", "add", "-q", "--detach", repo, "HEAD"], capture_output=True, text=True)
+            if r.returncode:
+                out["skipped"].append(f"{mid}: no worktree ({r.stderr.strip()[:80]})")
+                continue
+            f = os.path.join(repo, path)
+            s = open(f, encoding="utf-8").read()
+            if old not in s:
+                out["skipped"].append(f"{mid}: pattern not in the current source")
+                continue
+            open(f, "w", encoding="utf-8").write(s.replace(old, new, 1))
+            env = dict(os.environ, PYVC_REPO=repo, PYVC_NO_SELFTEST="1", PYVC_OUT_DIR=os.path.join(wt, "out"))
+            c = subprocess.run([os.path.join(VERIF, "check"), prop, "--tier", "quick"], capture_output=True, text=True, env=env)
+            (out["killed"] if c.returncode == 1 else out["survived"]).append(f"{mid} ({os.path.basename(path)}): exit {c.returncode}")
+        finally:
+            subprocess.run(["git", "-C", "/repo", "worktree", "remove", "--force", repo], capture_output=True)
+            subprocess.run(["rm", "-rf", wt])
+    subprocess.run(["git", "-C", "/repo", "worktree", "prune"], capture_output=True)
+    return out
 
 
 if __name__ == "__main__":
